@@ -9,8 +9,8 @@ CLIENT_BUGS_OFF = {"BugReturnSlotsOnContinues": False, "BugOnewayTakesReader": F
 CLIENT_INVS = ["OneOwner", "ReplyToRequester", "SendOnce", "OnewayConsumesNothing", "ReusableAfterFinal", "IterationShape"]
 
 
-def client_model(res, threads, objs, maxops, scriptset, tag, emit=False, simulate=None, workers=8):
-    consts = dict(CLIENT_BUGS_OFF, Threads=set(threads), Objs=set(objs), MaxOps=maxops, ScriptSet=scriptset, Emit=emit)
+def client_model(res, threads, objs, maxops, scriptset, tag, emit=False, simulate=None, workers=8, upgrade=False):
+    consts = dict(CLIENT_BUGS_OFF, Threads=set(threads), Objs=set(objs), MaxOps=maxops, ScriptSet=scriptset, Emit=emit, WithUpgrade=upgrade)
     cfg = write_cfg(os.path.join(res.wd, "MC_Client_%s.cfg" % tag), constants=consts,
                     invariants=CLIENT_INVS + (["EmitCase"] if emit else []), properties=["BusyWritesNothing"])
     r = run_tlc("MC_Client", cfg, res.wd, workers=1 if simulate else workers, timeout=1800, tag="client-" + tag,
@@ -96,12 +96,15 @@ def check_C07(tier):
     vh = build_harness()
     thorough = tier == "thorough"
     # (1) every reply object x {call, more}: the outcome table
-    r = client_model(res, [1], [1], 2, "replies", "replies", emit=True)
+    r = client_model(res, [1], [1], 2, "replies", "replies", emit=True, upgrade=True)
     replay_client(res, vh, r.replay, "outcomes")
     res.extra["reply_objects"] = 36
     # (2) operation histories, one thread
     r2 = client_model(res, [1], [1, 2, 3], 4, "small", "hist4", emit=True)
     cases = list(r2.replay)
+    # the same with upgrade() among the ways to send, one operation shorter (thorough: the same length)
+    r2u = client_model(res, [1], [1, 2, 3], 4 if thorough else 3, "small", "hist-upgrade", emit=True, upgrade=True)
+    cases += [c for c in r2u.replay if any(w["mode"] == "upgrade" for w in c["wire"])]
     if thorough:
         r3 = client_model(res, [1], [1, 2, 3], 5, "small", "hist5", emit=True)
         cases += r3.replay
@@ -119,7 +122,7 @@ def check_C07(tier):
     client_trace(res, vh, 1500 if thorough else 300, 4, "t4")
     if thorough:
         client_trace(res, vh, 1500, 8, "t8")
-    res.rule = ("Client.tla: all histories over {call, more, next, oneway, re-send, call-while-busy} up to 4/5 operations with scripted reply "
+    res.rule = ("Client.tla: all histories over {call, more, next, oneway, re-send, call-while-busy} up to 4/5 operations (with upgrade(): 3/4) with scripted reply "
                 "streams, every reply object (36) in the outcome table; 2..3 model threads for interleavings; real threads (2..4/8) logged "
                 "and linearised against the spec; non-trivial = distinct histories containing a refused (busy / already-called) operation")
     res.exhaustive = True
